@@ -54,6 +54,12 @@ pub enum Ev {
     OpenAgain,
     /// release one handle; releasing the last one closes the document and its subscriptions
     CloseOne,
+    /// only as the first symbol of a sequence: the node holds the document read-only (local
+    /// writes fail, remote entries enter and are announced as usual)
+    StartReadOnly,
+    /// import the write capability while the document is open and subscribed (an upgrade when the
+    /// node started read-only, no change otherwise): subscribers stay, local writes work
+    ImportWrite,
 }
 
 fn alphabet() -> Vec<Ev> {
@@ -199,8 +205,13 @@ fn exec(seq: &[Ev]) -> Option<(Bad, String, bool)> {
     let ns = ns_id(0);
     let mut bad: Bad = vec![];
     let mut store = Store::memory();
+    let read_only_start = seq.first() == Some(&Ev::StartReadOnly);
+    if seq.iter().skip(1).any(|e| *e == Ev::StartReadOnly) {
+        return None;
+    }
+    let mut writable = !read_only_start;
     store
-        .import_namespace(Capability::Write(ns_secret(0)))
+        .import_namespace(if read_only_start { Capability::Read(ns) } else { Capability::Write(ns_secret(0)) })
         .expect("import");
     store.import_author(author(0)).expect("author");
     let mut pre = Sut { store };
@@ -255,6 +266,14 @@ fn exec(seq: &[Ev]) -> Option<(Bad, String, bool)> {
             }
         };
         match *ev {
+            Ev::StartReadOnly => {}
+            Ev::ImportWrite => {
+                let res = block_on_park(h.import_namespace(Capability::Write(ns_secret(0))));
+                writable = true;
+                if res.is_err() && last {
+                    bad.push(("reply_matches_application", json!({}), format!("{ev:?}: {res:?}")));
+                }
+            }
             Ev::InsA | Ev::InsAb | Ev::DelA => {
                 let ts = T0 + 10 + i as u64;
                 let (key, val): (&[u8], Val) = match ev {
@@ -272,7 +291,7 @@ fn exec(seq: &[Ev]) -> Option<(Bad, String, bool)> {
                 };
                 set_clock(NOW);
                 let e = spec.signed();
-                let inserted = handles > 0 && apply(&mut model, &e, Exp::Local(e.clone()), &mut expected);
+                let inserted = handles > 0 && writable && apply(&mut model, &e, Exp::Local(e.clone()), &mut expected);
                 if res.is_ok() != inserted && last {
                     bad.push(("reply_matches_application", json!({}), format!("{ev:?}: impl ok={} model inserted={inserted}", res.is_ok())));
                 }
@@ -598,6 +617,44 @@ fn run(ctx: &Ctx, report: &mut Report) {
                     report.violation(o, w, case.clone(), d, 0);
                 }
             }
+        }
+    }
+    // the node starts read-only and gets the write capability while the document is open and
+    // subscribed: sequences StartReadOnly, then <= 3 (thorough 4) symbols of a smaller alphabet
+    {
+        let ro_alpha = [Ev::ImportWrite, Ev::InsA, Ev::RemoteValid, Ev::SyncStep, Ev::DelA, Ev::Subscribe, Ev::DropRx(1), Ev::Policy(1)];
+        let depth = if ctx.quick() { 3 } else { 4 };
+        let mut ordinal = 1u64 << 41;
+        for d in 1..=depth {
+            for_each_sequence(ro_alpha.len(), d, |idx| {
+                if !idx.iter().any(|&i| ro_alpha[i] == Ev::ImportWrite) {
+                    return;
+                }
+                ordinal += 1;
+                if !ctx.mine(ordinal) {
+                    return;
+                }
+                let mut seq = vec![Ev::StartReadOnly];
+                seq.extend(idx.iter().map(|&i| ro_alpha[i]));
+                let case = json!({"seq": seq});
+                match catch(|| exec(&seq)) {
+                    Err(p) => report.violation("no_panic", json!({}), case, format!("panic: {p}"), ordinal),
+                    Ok(None) => {}
+                    Ok(Some((bad, rendering, delivered))) => {
+                        report.evaluations += 1;
+                        report.traces += 1;
+                        report.transitions += seq.len() as u64;
+                        report.count("read_only_start_sequences", 1);
+                        if delivered {
+                            report.nontrivial += 1;
+                        }
+                        report.outcome(format!("{:016x}", fnv(rendering.as_bytes())));
+                        for (o, w, dd) in bad {
+                            report.violation(o, w, case.clone(), dd, ordinal);
+                        }
+                    }
+                }
+            });
         }
     }
     let alpha = alphabet();
